@@ -44,7 +44,7 @@ impl<'a> Cel<'a> {
 
     /// The layer coordinate of this cel.
     pub fn layer(&self) -> u32 {
-        self.cel_id.layer as u32
+        self.cel_id.layer
     }
 
     /// Returns the cel's user data, if any is present.
@@ -91,7 +91,7 @@ pub(crate) struct CelsData<P> {
 #[derive(Debug, Clone, Copy)]
 pub(crate) struct CelId {
     pub frame: u16,
-    pub layer: u16,
+    pub layer: u32,
 }
 
 impl fmt::Display for CelId {
@@ -112,7 +112,7 @@ where
                     d.entry(
                         &CelId {
                             frame: frame as u16,
-                            layer: layer as u16,
+                            layer: layer as u32,
                         },
                         cel,
                     );
@@ -207,7 +207,7 @@ impl RawCel<RawPixels> {
     {
         let content = match self.content {
             CelContent::Raw(image_content) => {
-                let layer_is_background = layers[cel_id.layer as u32].is_background();
+                let layer_is_background = layers[cel_id.layer].is_background();
                 let image_content =
                     image_content.validate(palette, pixel_format, layer_is_background)?;
                 CelContent::Raw(image_content)
@@ -221,7 +221,7 @@ impl RawCel<RawPixels> {
                 CelContent::Linked(other_frame)
             }
             CelContent::Tilemap(tilemap) => {
-                if let LayerType::Tilemap(tileset_id) = layers[cel_id.layer as u32].layer_type {
+                if let LayerType::Tilemap(tileset_id) = layers[cel_id.layer].layer_type {
                     // The tileset exists, see LayersData::validate.
                     let tile_count = tilesets.get(tileset_id).map_or(0, |t| t.tile_count());
                     if let Some(max_id) = tilemap.max_tile_id() {
@@ -272,7 +272,7 @@ impl CelsData<RawPixels> {
             for layer in 0..num_layers {
                 let cel_id = CelId {
                     frame: frame as u16,
-                    layer: layer as u16,
+                    layer: layer as u32,
                 };
                 is_linkable_cel.push(self.cel(cel_id).map_or(false, |c| !c.content.is_linked()));
             }
@@ -299,7 +299,7 @@ impl CelsData<RawPixels> {
                 let cel = if let Some(cel) = opt_cel {
                     let cel_id = CelId {
                         frame: frame as u16,
-                        layer: layer as u16,
+                        layer: layer as u32,
                     };
                     Some(cel.validate(
                         cel_id,
